@@ -1,6 +1,7 @@
 package main
 
 import (
+	"go/constant"
 	"fmt"
 	"go/token"
 	"go/types"
@@ -123,6 +124,92 @@ func checkC08(c *Check, p *Program) {
 			c.Decide(ok2, "C08.panic", helperName(fn)+" big-endian read within the payload", p.InstrPos(call), fmt.Sprintf("len(data) guard leaves >= %d bytes for the read", need), "binary.BigEndian read on a slice that may be too short (panics)")
 		})
 	}
+
+	// rendering does not call itself: fmt applies String()/Error() of an operand for the verbs %v %s %q %x %X
+	// (and always in Sprint/Sprintln); an operand of the method's own receiver type recurses until the stack is gone
+	nFmt := 0
+	for _, fn := range fns {
+		top := topOf(fn)
+		if top.Signature.Recv() == nil || (top.Name() != "String" && top.Name() != "Error" && top.Name() != "GoString") {
+			continue
+		}
+		recvT := deref(top.Signature.Recv().Type())
+		instrsOf(fn, func(in ssa.Instruction) {
+			call, ok := in.(*ssa.Call)
+			if !ok {
+				return
+			}
+			obj := calleeObj(call)
+			if obj == nil || obj.Pkg() == nil || obj.Pkg().Path() != "fmt" {
+				return
+			}
+			var format *string
+			nm := obj.Name()
+			isF := strings.HasSuffix(nm, "f")
+			args := call.Common().Args
+			if len(args) == 0 {
+				return
+			}
+			if isF {
+				for _, a := range args {
+					if k, ok := a.(*ssa.Const); ok && k.Value != nil && k.Value.Kind() == constant.String {
+						fs := constant.StringVal(k.Value)
+						format = &fs
+						break
+					}
+				}
+			}
+			// the variadic operands: stores into the varargs array
+			va, ok := args[len(args)-1].(*ssa.Slice)
+			if !ok {
+				return
+			}
+			al, ok := va.X.(*ssa.Alloc)
+			if !ok {
+				return
+			}
+			operands := map[int64]ssa.Value{}
+			for _, u := range usesOf(al) {
+				if ia, ok := u.(*ssa.IndexAddr); ok {
+					idx, _ := constInt(ia.Index)
+					for _, uu := range usesOf(ia) {
+						if st, ok := uu.(*ssa.Store); ok {
+							operands[idx] = st.Val
+						}
+					}
+				}
+			}
+			var verbs []byte
+			if format != nil {
+				f := *format
+				for i := 0; i < len(f); i++ {
+					if f[i] != '%' {
+						continue
+					}
+					i++
+					for i < len(f) && strings.IndexByte("+-# 0123456789.[]*", f[i]) >= 0 {
+						i++
+					}
+					if i < len(f) && f[i] != '%' {
+						verbs = append(verbs, f[i])
+					}
+				}
+			}
+			for idx, v := range operands {
+				mi, ok := v.(*ssa.MakeInterface)
+				if !ok || !types.Identical(deref(mi.X.Type()), recvT) {
+					continue
+				}
+				nFmt++
+				applies := !isF || format == nil
+				if isF && format != nil && int(idx) < len(verbs) {
+					applies = strings.IndexByte("vsqxX", verbs[idx]) >= 0
+				}
+				c.Decide(!applies, "C08.panic", helperName(fn)+" does not render itself through fmt", p.InstrPos(call), "the operand of the receiver's type is formatted with a verb that does not call "+top.Name()+"()", "fmt."+nm+" is handed a value of the method's own receiver type under a verb that calls "+top.Name()+"() again: unbounded recursion (stack overflow) whenever this statement is reached")
+			}
+		})
+	}
+	c.OK("C08.panic", "rendering methods handing their own receiver to fmt", "", fmt.Sprintf("%d operand(s) of the receiver's type judged", nFmt))
 
 	// ---- (2) wrong length is rejected
 	memo := map[*ssa.Function]lenGuard{}
